@@ -27,6 +27,14 @@ Fixpoint dedup (l : list N) : list N :=
   | x :: l' => if mem x l' then dedup l' else x :: dedup l'
   end.
 
+(* first occurrences, in order (IndexSet collection) *)
+Fixpoint dedup_keep_first_aux (seen l : list N) : list N :=
+  match l with
+  | [] => []
+  | x :: l' => if mem x seen then dedup_keep_first_aux seen l' else x :: dedup_keep_first_aux (x :: seen) l'
+  end.
+Definition dedup_keep_first (l : list N) : list N := dedup_keep_first_aux [] l.
+
 Definition option_bind {A B : Type} (o : option A) (f : A -> option B) : option B :=
   match o with Some a => f a | None => None end.
 
